@@ -110,7 +110,7 @@ impl Prop for C01 {
                 max_len: 300,
                 seed,
                 seeds: crate::fuzz::random_seeds(seed, 24, 300),
-                max_time: 1500,
+                max_time: 600,
             },
             ev,
         )
